@@ -207,6 +207,27 @@ func (in *Interp) registerIntrinsics(reg func(string, extFn)) {
 		}
 		return nil
 	})
+	r("vfSharedWrites", func(in *Interp, fr *frame, fn *ssa.Function, args []Value) Value {
+		// run f with the package state and everything reachable from the roots frozen; count stores into them
+		in.frozen = map[*Value]bool{}
+		in.frozenMaps = map[*MapV]bool{}
+		in.frozenHits = nil
+		for p := range in.globalSlot {
+			in.frozen[p] = true
+		}
+		for m := range in.globalMaps {
+			in.frozenMaps[m] = true
+		}
+		roots, _ := args[0].([]Value)
+		seen := map[*Value]bool{}
+		for _, rt := range roots {
+			in.collectSlots(rt, in.frozen, in.frozenMaps, seen)
+		}
+		in.call(fr, args[1], nil, nil)
+		n := len(in.frozenHits)
+		in.frozen, in.frozenMaps, in.frozenHits = nil, nil, nil
+		return in.mkInt(int64(n))
+	})
 	r("vfFrozenWrites", func(in *Interp, fr *frame, fn *ssa.Function, args []Value) Value {
 		n := len(in.frozenHits)
 		in.frozen, in.frozenMaps = nil, nil
